@@ -76,8 +76,9 @@ Apply(st, e) ==
             /\ e.dirty = 0 /\ e.ng = st.ng[IdxOf(st, e.c)]
          THEN Move(st, e.c, "scored") ELSE Reject
     [] e.ev = "NonCov" ->
-         \* the coupling analysis observes: values and determinant multisets as before, same groups
-         IF StepOK(st, e.c, "scored", "analysed") /\ e.neutral /\ e.dirty = 0 /\ e.ng = st.ng[IdxOf(st, e.c)]
+         \* the coupling analysis observes: values and determinant multisets as before (unless the display of alternative
+         \* states was requested, which leaves the last displayed state behind), same groups, totals still fresh
+         IF StepOK(st, e.c, "scored", "analysed") /\ (e.neutral \/ e.display) /\ e.dirty = 0 /\ e.ng = st.ng[IdxOf(st, e.c)]
          THEN Move(st, e.c, "analysed") ELSE Reject
     [] e.ev = "Average" ->
          IF st.ms = "molecule" /\ All(st, {"analysed"}) /\ e.dirty = 0 THEN [st EXCEPT !.ms = "averaged"] ELSE Reject
